@@ -7,6 +7,7 @@ import (
 	"crypto/tls"
 	"crypto/x509"
 	"fmt"
+	"github.com/saucelabs/forwarder"
 	"net"
 	"strings"
 	"testing"
@@ -34,14 +35,22 @@ func bracket(h string) string {
 
 func proxyScenario(x *explore.X) {
 	au := authorities[x.Choose("authority", len(authorities))]
-	sniMode := x.Choose("sni", 3)                 // 0 same as host, 1 absent, 2 different
+	sniMode := x.Choose("sni", 3)                   // 0 same as host, 1 absent, 2 different
 	originCert := x.Choose("origin-certificate", 4) // 0 valid, 1 expired, 2 wrong name, 3 untrusted CA
 	insecure := x.Choose("insecure", 2) == 1
-	domains := x.Choose("mitm-domains", 3) // 0 none (everything is intercepted), 1 include list matches, 2 excluded
+	domains := x.Choose("mitm-domains", 3)            // 0 none (everything is intercepted), 1 include list matches, 2 excluded
 	tlsListener := x.Choose("proxy-listener", 2) == 1 // 0 plain, 1 the proxy itself is reached over TLS (--protocol https)
 	pki := world.NewPKI("harness origin CA")
 	other := world.NewPKI("untrusted CA")
 	opts := world.Options{MITM: true, TransportCAPEM: pki.CAPEM, Insecure: insecure, TLSListener: tlsListener}
+	// the certificate is valid when it is PRESENTED: a client may wait between the 200 and its hello for longer than
+	// the configured validity (--mitm-validity 10m, hello 20 minutes later)
+	lateHello := !tlsListener && x.Choose("client-hello-later-than-the-certificate-validity", 2) == 1
+	if lateHello {
+		mc := forwarder.DefaultMITMConfig()
+		mc.Validity = 10 * time.Minute
+		opts.MITMConfig = mc
+	}
 	switch domains {
 	case 1:
 		opts.MITMDomains = []string{`(?i)(^|\.)origin\.test$`, `^192\.0\.2\.10$`, `^2001:db8::10$`}
@@ -88,7 +97,7 @@ func proxyScenario(x *explore.X) {
 	if asked == "" {
 		asked = au.host
 	}
-	what := fmt.Sprintf("CONNECT %s, SNI %q, origin certificate %d, insecure=%v, mitm-domains=%d, tls-listener=%v", authority, sni, originCert, insecure, domains, tlsListener)
+	what := fmt.Sprintf("CONNECT %s, SNI %q, origin certificate %d, insecure=%v, mitm-domains=%d, tls-listener=%v, hello 20 min after the 200 with validity 10 min=%v", authority, sni, originCert, insecure, domains, tlsListener, lateHello)
 	x.Logf("%s", what)
 	var tc *world.TLSPeer
 	if tlsListener {
@@ -102,6 +111,9 @@ func proxyScenario(x *explore.X) {
 			return
 		}
 	} else {
+		if lateHello {
+			world.Settle(20 * time.Minute)
+		}
 		tc = world.TLSClient(raw, &tls.Config{ServerName: sni, InsecureSkipVerify: true})
 	}
 	x.Check()
